@@ -893,16 +893,16 @@ KNOWN_PREDICATES = {
 
 
 SUBCHECKS = [
-    SubCheck('subsets', lambda: TABLE, run_subsets, quick=1000, thorough=25000),
-    SubCheck('mdv_evid', lambda: TABLE, run_mdv_evid, quick=1000, thorough=25000),
-    SubCheck('doseid', lambda: TABLE, run_doseid, quick=2000, thorough=60000),
-    SubCheck('tad', lambda: TABLE, run_tad, quick=2000, thorough=60000),
-    SubCheck('tad_frame', lambda: TABLE, run_tad_frame, quick=1000, thorough=25000),
-    SubCheck('expand', lambda: TABLE, run_expand, quick=1600, thorough=40000),
-    SubCheck('expand_frame', lambda: TABLE, run_expand_frame, quick=640, thorough=15000),
-    SubCheck('cmt_admid', lambda: TABLE, run_cmt_admid, quick=1600, thorough=40000),
-    SubCheck('add_cmt_admid', lambda: TABLE, run_add_cmt_admid, quick=640, thorough=15000),
-    SubCheck('baselines', lambda: TABLE, run_baselines, quick=900, thorough=20000),
+    SubCheck('subsets', lambda: TABLE, run_subsets, quick=1000, thorough=8760),
+    SubCheck('mdv_evid', lambda: TABLE, run_mdv_evid, quick=1000, thorough=8760),
+    SubCheck('doseid', lambda: TABLE, run_doseid, quick=2000, thorough=17530),
+    SubCheck('tad', lambda: TABLE, run_tad, quick=2000, thorough=17530),
+    SubCheck('tad_frame', lambda: TABLE, run_tad_frame, quick=1000, thorough=8760),
+    SubCheck('expand', lambda: TABLE, run_expand, quick=1600, thorough=14020),
+    SubCheck('expand_frame', lambda: TABLE, run_expand_frame, quick=640, thorough=5610),
+    SubCheck('cmt_admid', lambda: TABLE, run_cmt_admid, quick=1600, thorough=14020),
+    SubCheck('add_cmt_admid', lambda: TABLE, run_add_cmt_admid, quick=640, thorough=5610),
+    SubCheck('baselines', lambda: TABLE, run_baselines, quick=900, thorough=7890),
 ]
 
 
